@@ -61,6 +61,10 @@ def hex_file(segs):
     return "\n".join(out) + "\n"
 
 
+def long_leads(tb):
+    return sorted({"%02x%02x%02x%02x" % (b, s2, tb, tb) for b in range(256) for s2 in (0x00, 0x80, 0xff)})
+
+
 def walk_one(a):
     exe, cpu, path, args = a
     try:
@@ -140,13 +144,40 @@ def range_part(chk, tier, seed, rnd):
             cid = "%s.h%d" % (cpu, k)
             meta[cid] = (cpu, unit, lo_start, data, lo_start, lo_start + len(data) - 1, ["-disasm"])
             jobs.append((os.path.join(vdir, "naken_util"), cpu, path, ["-disasm"]))
+    # images made of instructions longer than 16 bytes (operands that are variable-length integers, switch tables): a scan
+    # with every first byte, three second bytes and a tail of continuation bytes finds, per CPU, one 64-byte body per decoded
+    # length; the walk over these runs on the sanitizer build, because the column of opcode bytes is formatted by the walk
+    lcases = []
+    for c in cpus:
+        if c["name"] in ("ps2_ee_vu0", "ps2_ee_vu1"):
+            continue
+        for k, tb in enumerate((0xff, 0x80)):
+            lcases.append(("l.%s.%d" % (c["name"], k), "kind=dsum cpu=%s addr=0 tail=%d total=64" % (c["name"], tb), "\n".join(long_leads(tb))))
+    avdir = None
+    nlong = 0
+    for o in C.conform_parallel(vdir, "codec", lcases, rd, "walklong", 600, nproc=C.NCPU):
+        cpu = o["case"].split(".")[1]
+        unit = max(o.get("bpa", 1), 1)
+        longs = sorted((cl for cl in o.get("classes", []) if cl["len"] > 16), key=lambda cl: -cl["len"])
+        for q, cl in enumerate(longs[:2 if tier == "quick" else 8]):
+            avdir = avdir or C.ensure_build("asan")
+            data = bytes.fromhex(cl["w"])
+            data = data[:len(data) - len(data) % unit]
+            path = os.path.join(wd, "%s_long%s_%d.bin" % (cpu, o["case"].split(".")[2], q))
+            open(path, "wb").write(data)
+            cid = "%s.long%s.%d" % (cpu, o["case"].split(".")[2], q)
+            meta[cid] = (cpu, unit, 0, data, 0, len(data) - 1, ["-disasm"])
+            jobs.append((os.path.join(avdir, "naken_util"), cpu, path, ["-disasm"]))
+            nlong += 1
+    chk.cov["range_long_images"] = nlong
     with ThreadPoolExecutor(C.NCPU) as ex:
         outs = list(ex.map(walk_one, jobs))
     # decoder lengths at every unit of every file
     dcases = []
     for cid, (cpu, unit, start, data, low, high, args) in meta.items():
         padded = data + bytes(16)
-        lines = ["%d %s" % (start + o, padded[o:o + 16].hex()) for o in range(0, len(data), unit)]
+        ctx = 100 if ".long" in cid else 16
+        lines = ["%d %s" % (start + o, padded[o:o + ctx].hex()) for o in range(0, len(data), unit)]
         dcases.append((cid, "kind=dec cpu=%s" % cpu, "\n".join(lines)))
     dec = {o["case"]: o for o in C.conform_parallel(vdir, "codec", dcases, rd, "walkdec", 10, nproc=C.NCPU)}
     events = []
@@ -209,7 +240,18 @@ def words_part(chk, tier, seed, rnd):
     for c in cpus:
         for k, body in enumerate(chunks):
             cases.append(("w.%s.%d" % (c["name"], k), "kind=dsum cpu=%s addr=%d" % (c["name"], 0x1000 if k % 2 else 0), body))
+    # variable-length operands: every leading 16-bit pattern with a zero third/fourth byte... no: every first byte and a few
+    # second bytes, followed by 60 bytes that all have the continuation bit of a variable-length integer set (0xff, 0x80)
+    lead = long_leads
+    vcases = []
+    for c in cpus:
+        for k, tb in enumerate((0xff, 0x80)):
+            vcases.append(("w.%s.v%d" % (c["name"], k), "kind=dsum cpu=%s addr=0 tail=%d total=64" % (c["name"], tb), "\n".join(lead(tb))))
+    # these run on the sanitizer build: a decoder that formats an operand of any length into a buffer of its own overruns it
+    # without touching the caller's
     obs = C.conform_parallel(vdir, "codec", cases, rd, "words", 600, nproc=C.NCPU)
+    obs += C.conform_parallel(C.ensure_build("asan"), "codec", vcases, rd, "wordsv", 600, nproc=C.NCPU)
+    cases = cases + vcases
     byid = {o["case"]: o for o in obs}
     if len(byid) != len(cases):
         raise C.InfraError("conform returned %d of %d word cases" % (len(byid), len(cases)))
